@@ -74,6 +74,11 @@ func c05Shapes() []linkShape {
 		add("chain-out-across-directories-dir", "{UP}../outside/chains/hop-dir")
 		add("chain-out-across-directories-file", "{UP}../outside/chains/hop-file")
 		add("out-dir-with-inner-links", "{UP}../outside/dirlinks")
+		// an outside directory whose inner links read as staying inside the slug
+		// at the place they get there, but pass through another inner link
+		// (dl -> ../zz-top, a directory that exists next to the link in the tree
+		// and, with other content, outside) and so lead out of it
+		add("out-dir-with-inner-links-led-out-by-an-inner-link", "{UP}../outside/dirlinks2")
 		// inside as written, but ".." is applied after a component that is
 		// itself a link (top -> ../.. = the root, up1 -> .. = sub), so the
 		// operating system ends up elsewhere than the text suggests
@@ -135,7 +140,14 @@ func c05BuildWorld(c c05Case) error {
 	os.Symlink("../plain", "/w/outside/dirlinks/deeper/inner-up-own")
 	os.Symlink("../dir", "/w/outside/dirlinks/to-other-dir")         // a dereferenced directory leading on to another outside directory
 	os.Symlink("../../dir/sub", "/w/outside/dirlinks/deeper/to-sub") // and the same one level further down
-	os.Symlink("dir/sub", "/w/outside/sl")                           // sl/.. is outside/dir, not outside
+	mustWrite("/w/outside/dirlinks2/plain", can(), 0644)
+	mustWrite("/w/outside/zz-top/outer.txt", can(), 0644)
+	mustWrite("/file.txt", can(), 0644)
+	os.Symlink("../zz-top", "/w/outside/dirlinks2/dl")
+	os.Symlink("dl/../../file.txt", "/w/outside/dirlinks2/via2")
+	os.Symlink("dl/../../../file.txt", "/w/outside/dirlinks2/via3")
+	os.Symlink("dl/../../../../file.txt", "/w/outside/dirlinks2/via4")
+	os.Symlink("dir/sub", "/w/outside/sl") // sl/.. is outside/dir, not outside
 	os.MkdirAll("/w/outside/chains", 0755)
 	os.Symlink("../dir", "/w/outside/chains/hop-dir")
 	os.Symlink("../file.txt", "/w/outside/chains/hop-file")
@@ -160,6 +172,9 @@ func c05BuildWorld(c c05Case) error {
 		}
 	}
 	for _, l := range c.Links {
+		if l.Name == "out-dir-with-inner-links-led-out-by-an-inner-link" {
+			mustWrite(filepath.Join("/w/src", filepath.Dir(l.At), "zz-top", "keep.txt"), "inside zz-top\n", 0644)
+		}
 		if l.Name == "through-allowed-absolute-link-out" {
 			os.Symlink("/w/outside/dir", "/w/src/m-abs")
 		}
@@ -565,7 +580,7 @@ func init() {
 	fw.Register(&fw.Property{
 		ID:    "C05",
 		Level: "exploration",
-		Rule: "a source tree with a prefix-sharing sibling (src / src-evil) and an outside area full of OUTSIDE-<n> canaries gets 1-6 links of 46 shapes (incl. links that stay inside as written but are led outside by another link) (in-tree: same dir, via root, dir, dot, dangling, dotted; out-of-tree: relative file/dir/dangling, sibling-prefix, via the root's own name, absolute in/out, chains in->out, out->in, out->out, external directory with inner links, parent, root itself) at 3 depths; " +
+		Rule: "a source tree with a prefix-sharing sibling (src / src-evil) and an outside area full of OUTSIDE-<n> canaries gets 1-6 links of 47 shapes (incl. an outside directory whose inner links are led out by another inner link; links that stay inside as written but are led outside by another link) (in-tree: same dir, via root, dir, dot, dangling, dotted; out-of-tree: relative file/dir/dangling, sibling-prefix, via the root's own name, absolute in/out, chains in->out, out->in, out->out, external directory with inner links, parent, root itself) at 3 depths; " +
 			"packed with {dereference on/off} x {ignore on/off} x 5 allow-list settings x {fresh Packer, a Packer that packed another root at another depth before}; the slug is decoded independently and every entry is compared with the tree and with the physical target of its link; slugs from all-relative trees are handed to Unpack. Exhaustive over single shapes x option sets, PRNG over combinations. " +
 			"non-trivial = some link leaves the tree or approaches its boundary; distinct = links x options",
 		Assumptions: []string{"a link is out-of-tree when the place its target names, from the link's real location, is outside the source directory (component-wise)", "absolute links that point into the tree may be stored as absolute link entries (pinned by the repository's tests); such trees are exempt from the 'Unpack accepts' clause", "link cycles and links to special files belong to C19"},
